@@ -1111,15 +1111,16 @@ def unpack_named_tuple(spec: ValueSpec) -> Expression:
         field_indices = zip((f"'{name}'" for name in fields), fields)
     else:
         field_indices = enumerate(fields)
-    if not defaults:
-        packed_value = spec.expression
-    else:
-        packed_value = "value"
+    field_indices = list(field_indices)
     for idx, field in field_indices:
         unpacker = UnpackerRegistry.get(
             spec.copy(
                 type=annotations.get(field, Any),
-                expression=f"{packed_value}[{idx}]",
+                # with defaults the item is fetched first (see below), so that
+                # only a missing item, not a failing conversion, ends the list
+                expression=(
+                    "item" if defaults else f"{spec.expression}[{idx}]"
+                ),
                 could_be_none=True,
             )
         )
@@ -1147,12 +1148,13 @@ def unpack_named_tuple(spec: ValueSpec) -> Expression:
         lines.append(f"def {method_name}({method_args}):")
     with lines.indent():
         lines.append("fields = []")
-        with lines.indent("try:"):
-            for unpacker in unpackers:
-                lines.append(f"fields.append({unpacker})")
-        with lines.indent("except IndexError:"):
-            lines.append("pass")
         field_type = spec.builder.get_type_name_identifier(spec.type)
+        for (idx, _), unpacker in zip(field_indices, unpackers):
+            with lines.indent("try:"):
+                lines.append(f"item = value[{idx}]")
+            with lines.indent("except IndexError:"):
+                lines.append(f"return {field_type}(*fields)")
+            lines.append(f"fields.append({unpacker})")
         lines.append(f"return {field_type}(*fields)")
     lines.append(
         f"setattr({spec.cls_attrs_name}, '{method_name}', {method_name})"
